@@ -54,10 +54,21 @@ def directed_scenarios(ctx, delay_in_script):
             os.makedirs(os.path.dirname(pth), exist_ok=True)
             with open(pth, "wb") as f:
                 f.write(d)
+        # hard links whose paths differ only in where the component boundary lies (tw/ab vs tw/a/b, tw/foo/bar vs tw/foobar):
+        # whatever identifies a path by its bytes alone must not confuse them
+        for a, b in ((b"tw/ab", b"tw/a/b"), (b"tw/foo/bar", b"tw/foobar")):
+            pa, pb = os.path.join(top, a), os.path.join(top, b)
+            os.makedirs(os.path.dirname(pa), exist_ok=True)
+            os.makedirs(os.path.dirname(pb), exist_ok=True)
+            with open(pa, "wb") as f:
+                f.write(data)
+            os.link(pa, pb)
+            layout[a] = layout[b] = data
         env0 = {"FCLONES_VERIF_DISK_KIND": "ssd"}
         root_sets = [[top, os.path.join(top, b"2023")], [top, os.path.join(top, b".hid")],
                      [top, os.path.join(top, b"2023", b"trip"), os.path.join(top, b"2023")],
-                     [os.path.join(top, b"2024"), top, os.path.join(top, b"2024", b".h2")], [top, top]]
+                     [os.path.join(top, b"2024"), top, os.path.join(top, b"2024", b".h2")], [top, top],
+                     [os.path.join(top, b"tw", b"a"), os.path.join(top, b"tw")], [os.path.join(top, b"tw", b"foo"), top]]
         for roots in root_sets:
             for depth in ([], ["--depth", "1"], ["--depth", "2"]):
                 opts = ["--rf-over", "0"] + depth
